@@ -592,7 +592,7 @@ func runC17(a runArgs) error {
 	e := NewEmitter("C17", "Router.Run")
 	e.ShardSize = 60
 	e.Preamble = "From GoCoap Require Import Router.Model."
-	e.Rule = "mux.Router on fresh routers: (reg) Handle of one template with result and compiled regexp text; (disp) operation sequences Handle/HandleRemove/DefaultHandle + middlewares, then requests built from Uri-Path options through ServeCOAP with recording handlers; (conc) dispatch while goroutines add/remove routes. Distinct = distinct descriptor; non-trivial = a disp case with at least two live routes in which at least one request reached a registered route, or a reg case that compiled."
+	e.Rule = "mux.Router on fresh routers: (reg) Handle of one template with result and compiled regexp text; (disp) operation sequences Handle/HandleRemove/DefaultHandle + middlewares, then requests built from Uri-Path options through ServeCOAP with recording handlers; (conc) dispatch while goroutines add/remove routes; (hist) histories on one router: operations and requests interleaved, the same paths sent again after later Handle/HandleRemove/DefaultHandle. Distinct = distinct descriptor; non-trivial = a disp case with at least two live routes in which at least one request reached a registered route, a reg case that compiled, or a hist case in which some path was answered by a different route (or default instead of a route, or vice versa) than when it was sent before the operations in between."
 	rng := NewRng(a.seed)
 	addDisp := func(d c17Disp, tag string) {
 		coq, st := c17RunDisp(d)
@@ -623,6 +623,13 @@ func runC17(a runArgs) error {
 					addDisp(c17Disp{Ops: d.Ops, Mws: d.Mws, Reqs: [][]string{q}}, "disp")
 				}
 			}
+		case strings.HasPrefix(a.only, "hist "):
+			h, err := c17ParseHist(a.only)
+			if err != nil {
+				return err
+			}
+			coq, st := c17RunHist(h)
+			e.AddW(coq, h.desc(), st.switches > 0, 1+st.reqs/2, "hist")
 		case strings.HasPrefix(a.only, "conc "):
 			var s uint64
 			fmt.Sscanf(a.only, "conc %d", &s)
@@ -710,6 +717,9 @@ func runC17(a runArgs) error {
 	for i := 0; i < ndisp; i++ {
 		addDisp(c17GenDisp(rng), "random")
 	}
+
+	// histories: operations and requests interleaved, the same paths again after later operations
+	c17AddHistFamily(e, rng, thorough)
 
 	nconc, per := 2, 2500
 	if thorough {
